@@ -159,6 +159,63 @@ Proof.
 Qed.
 Print Assumptions C05_vec_in_place.
 
+(* ... with ANY of the four conversion forms as converter: the uninit forms are followed by one write per added field
+   that was left out (plain fields only), the returning forms hand the removed data to the converter, which keeps them
+   (`back`).  Every output holds Q with the closed-form values `vals_after`; what was destroyed plus what was handed back
+   is exactly the removed droppable fields of every element *)
+Theorem C05_vec_in_place_forms : forall ds TI rt A cap, rt_ok rt = true ->
+  forall P Q minus plus carried,
+  layout_ok ds TI A cap P -> layout_ok ds TI A cap Q ->
+  Permutation P (minus ++ carried) -> Permutation Q (plus ++ carried) ->
+  forall v prev (uninit and_out : bool),
+  (uninit = true -> forall i, In i plus -> un ds i = true -> dr ds TI i = false) ->
+  forall pv fv fl (sz al : N) (inputs : list ((nat -> nat) * buf)),
+  VecConv.flags_ok fl = true ->
+  Forall (fun x => holds ds TI cap A P (fst x) (snd x)) inputs ->
+  exists outs destroyed back calls,
+    VecConv.run buf buf unit fault (nat * list nat * list nat)
+      (VecRecords.rconvg ds TI rt A cap Q minus plus carried v prev uninit and_out pv fv) sz al sz al fl
+      (map snd inputs) (0%nat, [], []) =
+      (VecConv.Done outs (length inputs, destroyed, back), calls) /\
+    Forall (VecConvThms.is_call buf buf) calls /\
+    VecConvThms.call_inputs buf buf calls = map snd inputs /\
+    VecRecords.outs_ok_g ds TI A cap Q plus uninit pv fv 0%nat inputs outs /\
+    Permutation (destroyed ++ back) (flat_map (fun x => map (fst x) (filter (dr ds TI) minus)) inputs).
+Proof.
+  intros ds TI rt A cap RT P Q minus plus carried LP LQ PP PQ v prev uninit and_out Hpl pv fv fl sz al inputs OK HF.
+  exact (VecRecords.vec_of_records_forms ds TI rt A cap RT P Q minus plus carried LP LQ PP PQ v prev uninit and_out Hpl
+           pv fv fl sz al inputs OK HF).
+Qed.
+Print Assumptions C05_vec_in_place_forms.
+
+(* ... and with a converter that uses the other feature of the function - mutable access to the most recently produced
+   output: some elements are kept (converted to Q), the others are merged into the previous output (one of its fields is
+   overwritten through the mutable accessor, which destroys the old value once) and dropped (their generated Drop).
+   For every vector and every choice of kept elements, fields and values: no fault, every output still holds Q, and
+   what the converter destroyed plus what the outputs own at the end (what their Drop would destroy) is exactly what the
+   inputs owned plus what was supplied to the kept elements plus what was written *)
+Theorem C05_vec_in_place_merge : forall ds TI rt A cap, rt_ok rt = true ->
+  forall P Q minus plus carried,
+  layout_ok ds TI A cap P -> layout_ok ds TI A cap Q ->
+  Permutation P (minus ++ carried) -> Permutation Q (plus ++ carried) ->
+  forall v prev pv (keep : nat -> bool) (wf wx : nat -> nat), (forall k, In (wf k) Q) ->
+  forall fl (sz al : N) (inputs : list ((nat -> nat) * buf)),
+  VecConv.flags_ok fl = true ->
+  Forall (fun x => holds ds TI cap A P (fst x) (snd x)) inputs ->
+  exists outs destroyed calls,
+    VecConv.run buf buf unit fault (nat * list nat)
+      (VecRecords.rconvm ds TI rt A cap P minus plus v prev pv keep wf wx) sz al sz al fl (map snd inputs) (0%nat, []) =
+      (VecConv.Done outs (length inputs, destroyed), calls) /\
+    Forall (VecConvThms.is_call buf buf) calls /\
+    Forall (VecRecords.holdsQ ds TI A cap Q) outs /\
+    Permutation (destroyed ++ VecRecords.outs_tokens ds TI rt A cap Q prev outs)
+                (VecRecords.owned_tokens ds TI P inputs ++ VecRecords.entered_m ds TI plus pv keep wf wx 0%nat false inputs).
+Proof.
+  intros ds TI rt A cap RT P Q minus plus carried LP LQ PP PQ v prev pv keep wf wx WF fl sz al inputs OK HF.
+  exact (VecRecords.vec_merge ds TI rt A cap RT P Q minus plus carried LP LQ PP PQ v prev pv keep wf wx WF fl sz al inputs OK HF).
+Qed.
+Print Assumptions C05_vec_in_place_merge.
+
 (* ... and when the resulting vector is dropped: what the conversions destroyed plus what the generated Drop destroys for
    each output record is, as a multiset, everything the input records owned plus everything supplied - each once *)
 Theorem C05_vec_in_place_then_drop : forall ds TI rt A cap, rt_ok rt = true ->
@@ -327,6 +384,55 @@ Proof.
   exact (C05_holds ds TI rt _ cap RT P Q m pl car LP LQ P1 P2 v prev and_out vals pvals r Hr).
 Qed.
 Print Assumptions C05_end_to_end.
+
+(* three records, the second merged into the first output (its droppable field c overwritten with 77) and dropped: the
+   converter destroyed a of #0 (conversion), then c of output #0 (overwritten) and a of #1 (dropped), then a of #2 *)
+Example C05_vec_in_place_merge_nonvacuous :
+  match op_new exv_ds exv_ti rt_fixed 8 32 0 [0; 1]%nat (fun i => (100 + i)%nat),
+        op_new exv_ds exv_ti rt_fixed 8 32 0 [0; 1]%nat (fun i => (200 + i)%nat),
+        op_new exv_ds exv_ti rt_fixed 8 32 0 [0; 1]%nat (fun i => (300 + i)%nat) with
+  | Ok (ORecord r1, _), Ok (ORecord r2, _), Ok (ORecord r3, _) =>
+      match VecConv.run buf buf unit fault (nat * list nat)
+              (VecRecords.rconvm exv_ds exv_ti rt_fixed 8 32 [0; 1]%nat [0%nat] [2%nat] 1 0 (fun k _ => (500 + k)%nat)
+                 (fun k => negb (Nat.eqb k 1)) (fun _ => 2%nat) (fun _ => 77%nat))
+              32 8 32 8 VecConv.flags_fixed [r1; r2; r3] (0%nat, []) with
+      | (VecConv.Done outs st, calls) =>
+          Some (st, length calls, map (fun o => op_get exv_ds exv_ti rt_fixed o 2 false) outs)
+      | _ => None
+      end
+  | _, _, _ => None
+  end = Some ((3%nat, [100; 500; 200; 300]%nat), 3%nat, [Ok (Some 77%nat); Ok (Some 502%nat)]).
+Proof. vm_compute. reflexivity. Qed.
+
+(* the hypotheses of the Vec theorems are met by that definition: both variants satisfy layout_ok and split as needed *)
+Lemma exv_layout_P : layout_ok exv_ds exv_ti 8 32 [0; 1]%nat.
+Proof.
+  constructor.
+  - repeat constructor; simpl; intuition discriminate.
+  - repeat constructor; simpl; intuition discriminate.
+  - intros i [<-|[<-|[]]]; vm_compute; discriminate.
+  - intros i [<-|[<-|[]]]; vm_compute; repeat split; discriminate.
+  - intros i j [<-|[<-|[]]] [<-|[<-|[]]] Hne _ _; try congruence; vm_compute; [left|right]; discriminate.
+  - repeat constructor; simpl; intuition discriminate.
+Qed.
+Lemma exv_layout_Q : layout_ok exv_ds exv_ti 8 32 [2; 1]%nat.
+Proof.
+  constructor.
+  - repeat constructor; simpl; intuition discriminate.
+  - repeat constructor; simpl; intuition discriminate.
+  - intros i [<-|[<-|[]]]; vm_compute; discriminate.
+  - intros i [<-|[<-|[]]]; vm_compute; repeat split; discriminate.
+  - intros i j [<-|[<-|[]]] [<-|[<-|[]]] Hne _ _; try congruence; vm_compute; [left|right]; discriminate.
+  - repeat constructor; simpl; intuition discriminate.
+Qed.
+Example C05_vec_in_place_hypotheses :
+  layout_ok exv_ds exv_ti 8 32 [0; 1]%nat /\ layout_ok exv_ds exv_ti 8 32 [2; 1]%nat /\
+  Permutation [0; 1]%nat ([0%nat] ++ [1%nat]) /\ Permutation [2; 1]%nat ([2%nat] ++ [1%nat]) /\
+  (forall k : nat, In 2%nat [2; 1]%nat).
+Proof.
+  split; [exact exv_layout_P|]. split; [exact exv_layout_Q|]. split; [apply Permutation_refl|]. split; [apply Permutation_refl|].
+  intros _. now left.
+Qed.
 
 Theorem C05_current : rt_ok Runtime.exec_rt = true.
 Proof. reflexivity. Qed.
